@@ -260,6 +260,9 @@ class BaseClient:
         expected_codes = wrap_with_container(expected_codes)
         wait_codes = wrap_with_container(wait_codes)
         if command:
+            if "\r" in command or "\n" in command:
+                # would be read as further commands (and logged as such)
+                raise ValueError("command contains a line break")
             if censor_after:
                 # Censor the user's command
                 raw = command[:censor_after]
